@@ -559,6 +559,26 @@ func ruleKillDoneCtx(c *Ctx) {
 		n++
 		node := g.NodeOf(call)
 		construct := "call " + exprStr(call.Fun) + "() on the exit context"
+		// ctx != nil && ctx.Err() ... inside one expression: guarded by short circuit
+		shortCircuit := false
+		for cur, child := p.Parent(call), ast.Node(call); cur != nil; child, cur = cur, p.Parent(cur) {
+			be, isBin := cur.(*ast.BinaryExpr)
+			if !isBin {
+				if _, isExpr := cur.(ast.Expr); !isExpr {
+					break
+				}
+				continue
+			}
+			if be.Op == token.LAND && ast.Node(be.Y) == child {
+				if l, isL := ast.Unparen(be.X).(*ast.BinaryExpr); isL && l.Op == token.NEQ && isNilIdent(info, l.Y) && (isField(l.X, ctxF) || isField(l.X, addrF)) {
+					shortCircuit = true
+				}
+			}
+		}
+		if shortCircuit {
+			c.R.Hold("R-NILGUARD", p.Pos(call), f.Name, construct, "right operand of `ctx != nil && ...`", true)
+			return true
+		}
 		if node != nil && seen[node] {
 			bad = true
 			c.R.Violate("R-NILGUARD", p.Pos(call), f.Name, construct, "Kill calls a method on Client.doneCtx on a path on which neither the address nor the context was found non-nil: after a launch that failed inside runner.Start the runner is recorded but the context was never created, so the customary deferred Kill panics the host", nil)
